@@ -389,6 +389,40 @@ def run_process_lookups(rep):
     rep.merge(part.result())
 
 
+# ---- string literals: every constant carries the text it was written with, whatever other strings the document holds ------------
+def run_strings(rep):
+    import itertools
+    part = engine.Part()
+    w = engine.worker("fast")
+    decl = G.DECL + " int sfn(const string s) { return 1; } bool sknown(const string s, int n, const string t) { return true; }"
+    pool = ["abc", "abc.def", "ab", "a", "abcd", "b", "abc def", "Abc"]
+    items, exp = [], []
+    for s1, s2 in itertools.product(pool, repeat=2):
+        items.append('sknown ( "%s" , a , "%s" )' % (s1, s2))
+        exp.append('(FUN_CALL:v4 (IDENTIFIER sknown) (CONSTANT:STRING "%s") (IDENTIFIER a) (CONSTANT:STRING "%s"))' % (s1, s2))
+        items.append('sfn ( "%s" ) + sfn ( "%s" )' % (s1, s2))
+        exp.append('(PLUS (FUN_CALL:v2 (IDENTIFIER sfn) (CONSTANT:STRING "%s")) (FUN_CALL:v2 (IDENTIFIER sfn) (CONSTANT:STRING "%s")))' % (s1, s2))
+    # one request per item and one request for all: the strings a document already holds must not matter
+    batches = [[k] for k in range(len(items))] + [list(range(len(items)))] + [list(range(len(items)))[::-1]]
+    for b in batches:
+        req = {"op": "exprs", "ctx": {"kind": "decl", "text": decl}, "items": [items[k] for k in b]}
+        r = w.call_safe(req, timeout=120)
+        if r.get("died"):
+            engine.check_crash(part, PID, r, "string literals", req)
+            continue
+        for k, x in zip(b, r["results"]):
+            part.count()
+            part.nontrivial_case("string-literal:%s:%d" % (items[k], len(b)))
+            rp = dict(req, expected=exp[k], item=items[k])
+            if x.get("sexpr") != exp[k]:
+                part.outcome("string-tree-mismatch")
+                part.violation("string-literal-tree:%s" % ("alone" if len(b) == 1 else "after-other-strings"),
+                               "`%s` parses to %s, expected %s" % (items[k], x.get("sexpr"), exp[k]), rp)
+            else:
+                part.outcome("string-tree-ok")
+    rep.merge(part.result())
+
+
 def main():
     rep = engine.Report(PID, "exploration",
                         "abstract expression trees over the full operator set (25 binary incl. aliases, 12 assignment, 6 prefix, "
@@ -411,6 +445,7 @@ def main():
         rep.merge(res)
     run_literals(rep)
     run_process_lookups(rep)
+    run_strings(rep)
     rep.assumptions = ["reference R1 (lib/exprgen.py) is an independent transcription of the UPPAAL operator table",
                        "?: and the assignment family are one right-associative group (C++ reading): an assignment as the else "
                        "operand needs no parentheses, an inline-if as the left operand of an assignment does; quantifier operands "
